@@ -1,4 +1,4 @@
-"""C08 generators: topology specs (families LAN / ROUTED / DMZ / WIFI / LOOP / RING) and operation lists.
+"""C08 generators: topology specs (families LAN / ROUTED / SHARED / DMZ / WIFI / LOOP / RING) and operation lists.
 
 `avoid_storm=True` is the exclusion by construction used while finding C08-arp-request-loop (routers route link-layer
 broadcasts) is open: no unowned next hops / pinged addresses on a segment shared by two routing devices, two wireless
@@ -87,6 +87,19 @@ class _B:
         return names
 
 
+def _declare_off(spec: Dict, draw, kinds=("host", "router", "switch", "firewall", "wrouter"), p_any: int = 3):
+    """with probability 1/p_any, declare one or two nodes `operating_state: OFF` (they have never been up)"""
+    if draw(st.integers(0, p_any - 1)) != 0:
+        return
+    cands = [n for n in spec["nodes"] if n["k"] in kinds]
+    for _ in range(draw(st.sampled_from([1, 1, 2]))):
+        n = cands[draw(st.integers(0, len(cands) - 1))]
+        # hosts and routing devices mostly; a switch that is off takes its whole LAN down
+        if n["k"] == "switch" and draw(st.booleans()):
+            continue
+        n["off"] = True
+
+
 def _fix_roles(spec: Dict, draw):
     """at least one DNS client and one DNS server when there are two hosts or more"""
     hosts = [n for n in spec["nodes"] if n["k"] == "host"]
@@ -117,7 +130,7 @@ def lan_spec(draw, avoid_storm=False):
 
 
 MUTATIONS = ["drop", "decoy_specific", "decoy_specific", "decoy_general", "metric_worse", "metric_better", "tie",
-             "nh_host"]
+             "nh_host", "default_dead", "default_dead"]
 
 
 @st.composite
@@ -215,10 +228,80 @@ def routed_spec(draw, avoid_storm=False, avoid_nh_host=False, nr=None):
                 r["routes"].append([victim["net"], victim["plen"], bad_nh, 1])
             elif m == "nh_host":
                 r["routes"].append([vip, 32, own[0]["host_ips"][0], 0])
+            elif m == "default_dead":
+                # default route through an address nobody owns on an attached network (it has never answered ARP)
+                dead = [own[0]["unused"]]
+                if not avoid_storm:
+                    dead += [t_["dead"] for t_ in ([transits[i - 1]] if i > 0 else []) +
+                             ([transits[i]] if i < nr - 1 else []) if t_["dead"]]
+                r["default"] = draw(st.sampled_from(dead))
             muts.append(m)
             r["routes"] = list(draw(st.permutations(r["routes"])))
     b.spec["muts"] = muts
     _fix_roles(b.spec, draw)
+    _declare_off(b.spec, draw)
+    return b.spec
+
+
+@st.composite
+def shared_spec(draw, avoid_storm=False):
+    """One switched segment 10.50.0.0/{24,28} that carries two or three routing devices AND hosts; every device also
+    has stub LANs.  A host on the shared segment uses one device as gateway while other networks are reached through
+    another device on the same segment, so the gateway must forward the packet back out of the port it arrived on."""
+    b = _B("shared", draw(st.sampled_from([1, 2])))
+    plen = draw(st.sampled_from([24, 28]))
+    nd = draw(st.sampled_from([2, 2, 3]))
+    seg_sw = b.switch()
+    devs = []
+    lans = []
+    for i in range(nd):
+        fw = (i == nd - 1) and draw(st.integers(0, 2)) == 0
+        seg_ip = f"10.50.0.{i + 1}"
+        if fw:
+            # shared segment on the internal (2) or external (1) port; the other one carries a stub LAN
+            seg_port = draw(st.sampled_from([1, 2]))
+            d = {"k": "firewall", "name": f"r{i}", "ifs": [[seg_port, seg_ip, plen]], "routes": [], "default": None}
+            stub_ports = [3 - seg_port] + ([3] if draw(st.booleans()) else [])
+        else:
+            seg_port = 5
+            d = {"k": "router", "name": f"r{i}", "ifs": [[5, seg_ip, plen]], "routes": [], "default": None}
+            stub_ports = list(range(1, draw(st.integers(1, 2)) + 1))
+        b.spec["nodes"].append(d)
+        b.link(d["name"], seg_port, seg_sw, b.sw_port(seg_sw))
+        for l, port in enumerate(stub_ports):
+            lp = draw(st.sampled_from([24, 28]))
+            net, dev_ip, hips, unused = _lan_addr(i, l, lp)
+            d["ifs"].append([port, dev_ip, lp])
+            nh = draw(st.sampled_from([1, 1, 2]))
+            b.attach_lan(draw, d["name"], port, dev_ip, hips, lp, unused, nh)
+            lans.append({"r": i, "net": net, "plen": lp, "host_ips": hips[:nh]})
+        devs.append(d)
+    # hosts on the shared segment, each with one of the devices as gateway
+    for k in range(draw(st.integers(1, 3))):
+        gw = f"10.50.0.{draw(st.integers(1, nd))}"
+        h = b.host(f"10.50.0.{10 + k}", plen, gw, draw(st.booleans()))
+        b.link(seg_sw, b.sw_port(seg_sw), h, 1)
+    # routing: every device reaches the others' stub LANs through their address on the shared segment
+    for i, d in enumerate(devs):
+        others = [j for j in range(nd) if j != i]
+        dflt = draw(st.sampled_from([None] + others))
+        for j in others:
+            nh_ip = f"10.50.0.{j + 1}"
+            if j == dflt:
+                d["default"] = nh_ip
+                continue
+            if draw(st.booleans()):
+                d["routes"].append([f"10.{j + 1}.0.0", 16, nh_ip, draw(st.sampled_from([0, 1, 5]))])
+            else:
+                for lan in lans:
+                    if lan["r"] == j:
+                        addr = lan["net"] if draw(st.booleans()) else lan["host_ips"][0]
+                        d["routes"].append([addr, lan["plen"], nh_ip, draw(st.sampled_from([0, 1, 5]))])
+        if d["routes"] and draw(st.integers(0, 5)) == 0:
+            d["routes"].pop(draw(st.integers(0, len(d["routes"]) - 1)))
+        d["routes"] = list(draw(st.permutations(d["routes"])))
+    _fix_roles(b.spec, draw)
+    _declare_off(b.spec, draw, p_any=4)
     return b.spec
 
 
@@ -268,6 +351,7 @@ def dmz_spec(draw, avoid_storm=False):
                     a = ip.rsplit(".", 1)[0] + (".0" if pl == 24 else ".16")
                     r["routes"].append([a, pl, "10.200.1.1", 0])
     _fix_roles(b.spec, draw)
+    _declare_off(b.spec, draw, p_any=4)
     return b.spec
 
 
@@ -324,6 +408,7 @@ def loop_spec(draw, avoid_storm=False):
         routers[1]["default"] = "10.200.2.2"  # r1 <-> r2 loop; r0 -> r1
         routers[1]["routes"].append(["10.1.0.0", 16, "10.200.1.1", 0])
     _fix_roles(b.spec, draw)
+    _declare_off(b.spec, draw)
     return b.spec
 
 
@@ -378,6 +463,11 @@ def ops_for(draw, spec: Dict, avoid_storm: bool = False, max_pairs: int = 30):
     dns_pairs = [[c, s] for c in clients for s in servers]
     dur = spec.get("dur", 1)
     ops: List[List] = []
+    # an address nobody owns on each host network (same plan as _lan_addr / the shared segment)
+    unused_on_lans = sorted({n["ip"].rsplit(".", 1)[0] + (".99" if n["plen"] == 24 else ".29")
+                             for n in spec["nodes"] if n["k"] == "host" and not n["ip"].startswith("10.50.")})
+    if spec["family"] == "shared" and not avoid_storm:
+        unused_on_lans.append("10.50.0.14")
 
     def round_(frac_ping=1.0, frac_dns=1.0):
         pp = list(draw(st.permutations(pairs)))[: max(1, int(len(pairs) * frac_ping))][:max_pairs]
@@ -390,14 +480,25 @@ def ops_for(draw, spec: Dict, avoid_storm: bool = False, max_pairs: int = 30):
     ops += round_()  # cold
     ops.append(["tick"])
     ops += round_(0.5, 0.5)  # warm
-    if spec["family"] == "loop" or draw(st.integers(0, 4)) == 0:
+    if spec["family"] == "loop" or draw(st.integers(0, 2)) == 0:
         for _ in range(draw(st.integers(1, 3))):
-            ips = UNKNOWN_IPS if avoid_storm else UNKNOWN_IPS + SHARED_SEGMENT_UNOWNED
+            ips = (UNKNOWN_IPS if avoid_storm else UNKNOWN_IPS + SHARED_SEGMENT_UNOWNED) + unused_on_lans * 2
             ops.append(["ping_ip", draw(st.sampled_from(hosts)), draw(st.sampled_from(ips))])
     if draw(st.booleans()):
         ops.append(["flush_arp"])
         ops.append(["tick"])
         ops += round_(0.5, 0.5)
+    off_nodes = [n["name"] for n in spec["nodes"] if n.get("off")]
+    if off_nodes and draw(st.integers(0, 2)) > 0:
+        # the declared-OFF nodes are started (all or all but one) and a full round follows
+        start = list(draw(st.permutations(off_nodes)))
+        if len(start) > 1 and draw(st.booleans()):
+            start = start[:-1]
+        for n in start:
+            ops.append(["power", n, "startup"])
+            ops += [["tick"]] * (dur + 1)
+        ops.append(["tick"])
+        ops += round_()
     targets = _toggle_targets(spec)
     nt = draw(st.integers(0, 3))
     done = []
@@ -435,8 +536,8 @@ def ops_for(draw, spec: Dict, avoid_storm: bool = False, max_pairs: int = 30):
 
 @st.composite
 def topo_case(draw, family: str, avoid_storm: bool = False, avoid_nh_host: bool = False):
-    strat = {"lan": lan_spec, "routed": routed_spec, "dmz": dmz_spec, "wifi": wifi_spec, "loop": loop_spec,
-             "ring": ring_spec}[family]
+    strat = {"lan": lan_spec, "routed": routed_spec, "shared": shared_spec, "dmz": dmz_spec, "wifi": wifi_spec,
+             "loop": loop_spec, "ring": ring_spec}[family]
     if family == "routed":
         spec = draw(strat(avoid_storm=avoid_storm, avoid_nh_host=avoid_nh_host))
     else:
